@@ -323,6 +323,52 @@ def run(tier, seed, replay=None):
         rn.account(res)
     ncorpus = len(CORPUS)
 
+    # 1b. reads of uninitialised memory that change what the compiler does: the release build must give the same exit status
+    # and the same diagnostics whatever bytes malloc hands out (MALLOC_PERTURB_ fills fresh and freed blocks), and under
+    # valgrind (thorough tier) no use of an uninitialised value may be reported. Programs: one per predefined family of
+    # names at every legal index (justification levels, user attributes, components, metrics), and the seed programs.
+    feature_programs = dict(fuzz11.SEEDS)
+    feature_programs["justify_levels"] = H + "table(glyph) cB = glyphid(7); cA = glyphid(3..6) {" + "; ".join(
+        "justify.%d.%s = %d%s" % (lv, a, 10 * lv + k + 1, "m" if a != "weight" else "") for lv in range(4) for k, a in enumerate(["stretch", "shrink", "step", "weight"])) + "}; endtable;\ntable(sub) cA > cB; endtable;\n"
+    feature_programs["user_attrs"] = H + G + "table(sub) cA > cB {" + "; ".join("user%d = %d" % (k, k) for k in range(1, 17)) + "}; endtable;\n"
+    feature_programs["glyph_metrics"] = H + G + "table(pos) cA {shift.x = boundingbox.left + advancewidth - boundingbox.right + leftsidebearing + rightsidebearing + ascent - descent + boundingbox.top - boundingbox.bottom + boundingbox.width + boundingbox.height + advanceheight}; endtable;\n"
+    feature_programs["breakweights_dirs"] = H + "table(glyph) cB = glyphid(7) {breakweight = BREAK_WORD; directionality = DIR_RIGHT}; cA = glyphid(3..6) {breakweight = -30; directionality = DIR_ARABNUMBER}; endtable;\ntable(sub) cA > cB; endtable;\n"
+    nperturb = 0
+    vg = shutil.which("valgrind") if tier == "thorough" else None
+    for nm, text in sorted(feature_programs.items()):
+        d = os.path.join(rn.work, "perturb_" + nm)
+        os.makedirs(d, exist_ok=True)
+        fuzz11.prepare_dir(d, text.encode("latin-1"), None, rn.font)
+        outs = {}
+        for tag, envx in (("plain", {}), ("perturb170", {"MALLOC_PERTURB_": "170"}), ("perturb85", {"MALLOC_PERTURB_": "85"})):
+            for fn in ("gdlerr.txt", "out.ttf"):
+                if os.path.exists(os.path.join(d, fn)):
+                    os.unlink(os.path.join(d, fn))
+            rc_, out_, _w = common.run_grc(rn.rel, d, ["-q", "p.gdl", "in.ttf", "out.ttf"], env_extra=envx)
+            ep = os.path.join(d, "gdlerr.txt")
+            diag = open(ep, errors="replace").read() if os.path.exists(ep) else ""
+            outs[tag] = (rc_, "\n".join(l for l in diag.split("\n") if "error(" in l or "warning(" in l))
+            nperturb += 1
+        problems = []
+        if len(set(outs.values())) > 1:
+            problems.append({"what": "exit status / diagnostics of the release build depend on the bytes malloc hands out (a read of uninitialised memory)",
+                             "runs": {k: [v[0], v[1][:400]] for k, v in outs.items()}})
+        if vg and not problems:
+            r_ = subprocess.run([vg, "-q", "--error-exitcode=99", rn.rel["grcompiler"], "-q", "p.gdl", "in.ttf", "out.ttf"], cwd=d,
+                                env=dict(os.environ, GDLPP=rn.rel["gdlpp"]), capture_output=True, timeout=900)
+            nperturb += 1
+            if r_.returncode == 99:
+                problems.append({"what": "valgrind reports an error in the release build", "valgrind": r_.stderr.decode("latin-1")[-1500:]})
+        if problems:
+            rd = rep.violation("uninit-" + nm, {"program": nm, "problems": problems, "how_to_replay": "p.gdl, in.ttf, stddef.gdh are next to replay.json; run the release build with MALLOC_PERTURB_=170 / 85 / unset"})
+            if rd:
+                for f in ("p.gdl", "in.ttf", "stddef.gdh"):
+                    try:
+                        shutil.copy(os.path.join(d, f), rd)
+                    except OSError:
+                        pass
+        shutil.rmtree(d, ignore_errors=True)
+
     # 2. argv: model vs real
     nargv = 150 if tier == "quick" else 1500
     astats = argv_correspondence(rep, rn, rng, nargv)
@@ -353,7 +399,7 @@ def run(tier, seed, replay=None):
         "proof_part": "argument handling (all argv), inclusive range loops (all ranges), duplicate-search bound (all sizes) - see theorems",
         "arg_consts_from_source": getattr(rep, "args_consts", None),
         "exploration_is_not_proof": True,
-        "corpus_cases": ncorpus, "argv_cases": nargv, "argv_model_outcomes": dict(astats),
+        "corpus_cases": ncorpus, "allocator_content_runs": nperturb, "argv_cases": nargv, "argv_model_outcomes": dict(astats),
         "gdl_cases": n, "case_kinds": dict(rn.kinds), "verdicts": dict(rn.counts), "exit_status_histogram": dict(rn.exit_codes),
         "asserts_on_rejected_programs (not violations; release path re-run clean)": dict(rn.assert_rejected),
         "ubsan_arithmetic_reports (informational, outside the property)": dict(rn.ub_arith),
